@@ -5,7 +5,7 @@ A stream object is bound to a memfile by verif_stream_bind(ptr, file_id) (or by 
 unbound streams use file 0.  State bits are mirrored into the basic_ios sub-object when the harness planted a
 fake vtable with verif_stream_init (so inlined eof()/fail()/good()/width() work on the dummy object).
 """
-import z3
+import z3, struct
 from ir2c import I8, I32, I64, PTR
 
 NOT = object()
@@ -437,6 +437,28 @@ def builtin(ex, st, fr, name, a, x, work):
             cnd, bs = shapes[-1]; ex.assume(st, cnd); emit_shape(st, bs); return a[0]
         if signed and v >> (w - 1): v -= 1 << w
         insert_padded(ex, st, a[0], mf, itoa_bytes(v)); return a[0]
+    if name in ('_ZNSo9_M_insertIdEERSoT_', '_ZNSolsEd', '_ZNSolsEf'):
+        # floating point insertion: exact for a value that is concrete on this path, with the stream's precision and floatfield
+        # (default floatfield = printf %.{precision}g); a symbolic value cannot be formatted
+        S.add('std::ostream::operator<<(double) -> memfile (concrete values only: %.{precision}g / fixed / scientific as the stream flags say)')
+        mf = mf_get(st, fid_of(st, a[0])); v = a[1]
+        if not isc(v):
+            v = z3.simplify(v)
+            if z3.is_rational_value(v): val = float(v.numerator_as_long()) / float(v.denominator_as_long())
+            elif z3.is_fp_value(v): val = float(eval(str(v))) if False else None
+            elif z3.is_bv_value(v): val = struct.unpack('<d', struct.pack('<Q', v.as_long()))[0]
+            else: raise Violation('unsupported', 'operator<<(double) with a symbolic value', st)
+            if val is None: raise Violation('unsupported', 'operator<<(double) with a symbolic value', st)
+        else: val = struct.unpack('<d', struct.pack('<Q', v))[0]
+        ios = ios_of(ex, st, a[0]); prec = 6; flags = 0
+        if ios is not None:
+            prec = ex.load_val(st, Ptr(ios.obj, ios.off + IOS_PREC_OFF), I64); flags = ex.load_val(st, Ptr(ios.obj, ios.off + IOS_FLAGS_OFF), I32)
+            if not (isc(prec) and isc(flags)): raise Violation('unsupported', 'symbolic stream precision/flags', st)
+        ff = flags & 0x104          # fixed = 0x4, scientific = 0x100
+        if prec == 0 and ff == 0: prec = 1
+        txt = ('%.*f' % (prec, val)) if ff == 0x4 else ('%.*e' % (prec, val)) if ff == 0x100 else ('%.*g' % (prec, val))
+        if flags & 0x400 and '.' not in txt and ff == 0: txt += '.'      # showpoint (rarely set)
+        insert_padded(ex, st, a[0], mf, list(txt.encode())); return a[0]
     if name in ('_ZNKSt12__basic_fileIcE7is_openEv',):
         S.add('std::basic_filebuf::is_open -> bound memfile is open'); return bool(mf_get(st, fid_of(st, a[0])).get('open', True))
     if name in ('_ZNSt9basic_iosIcSt11char_traitsIcEE5clearESt12_Ios_Iostate',):
